@@ -97,6 +97,24 @@ fn fonts_menu() -> Vec<ds::Horizontal> {
         pen(0),
     ]
 }
+/// Rules with every combination of {running, small, large} over (height, depth) – large is larger
+/// than every other item of the menu, small is smaller – next to two characters, a shifted box, a
+/// glue and a kern. TeX §653 does not test for running dimensions in hpack: height(p) and depth(p)
+/// are used as stored, and the running value (null_flag) is simply below every maximum; so a rule
+/// with one running dimension still contributes its explicit other dimension. (The width of a rule
+/// is never running in an hlist, §138 – not enumerated.)
+fn rules_menu() -> Vec<ds::Horizontal> {
+    use GlueOrder::*;
+    let dims = |k: usize, small: i32, large: i32| [ds::Rule::RUNNING, Scaled(small), Scaled(large)][k];
+    let mut m = vec![];
+    for h in 0..3 {
+        for d in 0..3 {
+            m.push(rule(dims(h, PT, 15 * PT), PT, dims(d, PT / 2, 14 * PT)));
+        }
+    }
+    m.extend([ch('a'), ch('b'), hbox(9 * PT, 2 * PT, 3 * PT, -4 * PT), glue(PT, 2 * PT, Normal, PT, Normal), kern(PT, ds::KernKind::Normal)]);
+    m
+}
 fn mixed_menu() -> Vec<ds::Horizontal> {
     use GlueOrder::*;
     let mut m = non_glue_menu();
@@ -449,6 +467,10 @@ fn check_list(list_idx: u64, list: &[ds::Horizontal], acc: &mut Acc) {
         acc.count_n("missing_character_right_after_the_same_character_in_a_font_that_has_it", ntargets_hint);
     }
     let p0 = kp::hpack(&mlist, kp::Pack::Additional(0));
+    // a rule with exactly one running dimension whose explicit other dimension is the box's maximum
+    if mlist.iter().any(|n| matches!(n, kp::Node::Rule { h, d, .. } if (*h == kp::NULL_FLAG) != (*d == kp::NULL_FLAG) && ((*h == p0.height && *h > 0) || (*d == p0.depth && *d > 0)))) {
+        acc.count("half_running_rule_decides_height_or_depth");
+    }
     for (k, t) in targets(&p0).into_iter().enumerate() {
         check_pack(list_idx * 16 + k as u64, list, &mlist, t, &FONT, acc);
     }
@@ -564,7 +586,7 @@ fn main() {
     ctx.assume("metrics are looked up per (font, character) (§654); a character node whose font lacks the character contributes nothing (TeX never builds such a node: new_character §582 returns null; the crate's pack passes over it); all dimensions, the natural width and the target are within TeX's max_dimen (2^30-1 sp); every running sum of widths and of per-order stretch/shrink stays inside TeX's 32-bit integers (TeX adds them unchecked, §651-656)");
     ctx.assume("ds::HBox has no glue_sign field: the sign is carried by glue_ratio.num/den (negative = shrinking, the way boxworks::tex::parse_glue_set builds it) and is judged through the exact identity natural + ratio*total(order) = width on every box whose glue is set and which TeX would not report as overfull; on an overfull box (TeX: glue_set 1.0, sign shrinking) only |ratio| = 1 is required, because the crate's own equality and box language are sign-blind (the sign observed there is recorded as an outcome class)");
     ctx.assume("the printed form of a ratio is compared through the crate's own Display (f32 based, TeX §186 uses a float as well); the exact rational identity is what decides");
-    ctx.assume("a running rule dimension is ds::Rule::RUNNING (-2^31) in the crate and null_flag (-2^30) in TeX; the conversion maps one to the other");
+    ctx.assume("a running rule dimension is ds::Rule::RUNNING (-2^31) in the crate and null_flag (-2^30) in TeX; the conversion maps one to the other. hpack (§653) does not test for running dimensions: the stored values enter the maxima, a running one is below every maximum, an explicit one counts even when the other is running. The width of a rule is never running in an hlist (§138): not enumerated");
 
     if let Some((_fam, case)) = ctx.replay_case() {
         let mut acc = Acc::default();
@@ -600,6 +622,8 @@ fn main() {
     seq_family(&mut ctx, 3, "glue-diag-deep", "glue that only stretches or only shrinks; amounts {0,+2pt,-2pt,+3pt} x 4 orders (32 glues)", &|| glue_diag(&[0, 2, -2, 3], false), if quick { 4 } else { 5 }, if quick { 4 } else { 5 });
     // F3b: the same character in several fonts
     seq_family(&mut ctx, 5, "fonts", "characters and ligatures over {a,b} x {font 0, font 1 (other metrics), font 2 (a missing)} interleaved with a glue, a kern, a box and a penalty", &fonts_menu, 1, if quick { 5 } else { 6 });
+    // F3c: rules with running dimensions
+    seq_family(&mut ctx, 6, "rules", "rules with height and depth each running, small (1pt / 0.5pt) or large (15pt / 14pt, above every other item), two characters, a shifted box, a glue, a kern", &rules_menu, 1, if quick { 5 } else { 6 });
     // F4: dimensions at max_dimen
     seq_family(&mut ctx, 4, "max-dimen", "kerns, glue, boxes and rules with dimensions +-(2^30-1) (cases whose natural width or target leaves max_dimen are skipped)", &boundary_menu, 1, 3);
 
@@ -610,6 +634,7 @@ fn main() {
     ctx.require("same_character_repeated_in_another_font", "lists in which a character is followed (with anything but another character in between) by the same character in a font with different metrics");
     ctx.require("character_missing_from_its_font", "lists with a character node whose font lacks the character (FontRepo returns None)");
     ctx.require("missing_character_right_after_the_same_character_in_a_font_that_has_it", "the missing character directly follows (among characters) the same character in a font that has it");
+    ctx.require("half_running_rule_decides_height_or_depth", "a rule with exactly one of height/depth running determines the box's height or depth through its explicit other dimension");
     ctx.require("overfull", "TeX would call the box overfull");
     ctx.require("shrink_exactly_used_up", "the target equals natural width minus the finite shrinkability (ratio exactly 1, not overfull)");
     ctx.require("shifted_box_decides_height_or_depth", "a shifted box determines the height or depth of the result");
